@@ -23,6 +23,8 @@ pub enum EntropyFault {
     Zeros,
     /// The draw returns these bytes (padded with zeros / truncated to the requested length).
     Bytes(Vec<u8>),
+    /// The draw returns what the previous draw of the same kind returned (a stuck generator).
+    RepeatPrevious,
 }
 
 /// Panic payload used when the per-operation draw budget is exhausted (livelock under fault).
@@ -34,6 +36,7 @@ pub struct SimRng {
     pub faults: BTreeMap<usize, EntropyFault>,
     pub faults_fired: usize,
     pub budget: usize,
+    last_fill: Vec<u8>,
 }
 
 pub fn key(seed: u64, label: &str) -> [u8; 32] {
@@ -54,6 +57,7 @@ impl SimRng {
             faults: BTreeMap::new(),
             faults_fired: 0,
             budget: 1 << 16,
+            last_fill: Vec::new(),
         }
     }
 
@@ -94,6 +98,7 @@ fn apply(fault: &EntropyFault, dest: &mut [u8]) {
                 *b = *v.get(i).unwrap_or(&0);
             }
         }
+        EntropyFault::RepeatPrevious => {}
     }
 }
 
@@ -124,8 +129,15 @@ impl RngCore for SimRng {
     fn fill_bytes(&mut self, dest: &mut [u8]) {
         self.inner.fill_bytes(dest);
         if let Some(f) = self.tick(DrawKind::Fill(dest.len())) {
-            apply(&f, dest);
+            if f == EntropyFault::RepeatPrevious {
+                if self.last_fill.len() == dest.len() {
+                    dest.copy_from_slice(&self.last_fill);
+                }
+            } else {
+                apply(&f, dest);
+            }
         }
+        self.last_fill = dest.to_vec();
     }
     fn try_fill_bytes(&mut self, dest: &mut [u8]) -> Result<(), rand_core::Error> {
         self.fill_bytes(dest);
